@@ -72,6 +72,16 @@ fn default_rx() -> (f64, f64) {
 /// marker and aircraft offsets straddle them (small negative coordinates, sign changes)
 const RECEIVERS: [(f64, f64); 8] = [(35.0, -80.0), (35.0, -80.0), (-35.0, 150.0), (52.0, 4.0), (0.2, 0.3), (-0.3, -0.2), (-33.9, -70.7), (1.3, 103.9)];
 
+fn alt_of_slot(slot: i32, high: i32) -> i32 {
+    match high {
+        1 => 47_975 - 25 * slot,
+        2 => 48_000 + 25 * slot,
+        3 => 50_175 - 100 * slot,
+        4 => 30_000 + 4_000 * slot,
+        _ => 5_000 + 2_000 * slot,
+    }
+}
+
 fn key(code: &str) -> KEv {
     KEv::Key { code: code.into(), ctrl: false, shift: false, alt: false }
 }
@@ -199,6 +209,8 @@ pub fn generate(rng: &mut Rng, fault_free: bool) -> K18 {
         let mut ctr = 0u32;
         let mut odd = rng.coin();
         let cs = format!("AC{}{}", (b'A' + slot as u8) as char, rng.below(90) + 10);
+        // every flight level the altitude field can carry, up to its ceiling of 50 175 ft
+        let high = if !fault_free && rng.chance(0.2) { *rng.pick(&[1i32, 2, 3, 4]) } else { 0 };
         if !fault_free && rng.chance(0.35) {
             // the first thing heard from some aircraft is a message type the tracker only counts
             // (status, target state, operational status, surface position, no-position)
@@ -217,7 +229,7 @@ pub fn generate(rng: &mut Rng, fault_free: bool) -> K18 {
                     let away = excursion && ctr >= 8 && (ctr / 8) % 3 == 1;
                     let far = if away { if rx.0 > 0.0 { -6.5 } else { 6.5 } } else { 0.0 };
                     let (yz, xz) = wire::cpr_encode(rx.0 + dlat + far, rx.1 + dlon, odd);
-                    wire::me_airborne_position(11, 0, 0, wire::ac12_q(5_000 + 2_000 * slot as i32), false, odd, yz, xz)
+                    wire::me_airborne_position(11, 0, 0, wire::ac12_q(alt_of_slot(slot as i32, high)), false, odd, yz, xz)
                 }
                 // (a helicopter in the hover now and then: exactly 0 kt on both axes)
                 _ if rng.chance(0.1) => wire::me_velocity(1, 0, wire::sub_ground_speed(rng.below(2) as u8, 1, rng.below(2) as u8, 1), 0, 0, 1 + rng.below(3) as u16, 0, 3),
@@ -236,13 +248,13 @@ pub fn generate(rng: &mut Rng, fault_free: bool) -> K18 {
                     0 => {
                         odd = !odd;
                         let (yz, xz) = wire::cpr_encode(rx.0 + dlat, rx.1 + dlon, odd);
-                        wire::me_airborne_position(11, 0, 0, wire::ac12_q(5_000 + 2_000 * slot as i32), false, odd, yz, xz)
+                        wire::me_airborne_position(11, 0, 0, wire::ac12_q(alt_of_slot(slot as i32, high)), false, odd, yz, xz)
                     }
                     1 => wire::me_identification(4, 0, &cs),
                     _ => {
                         odd = !odd;
                         let (yz, xz) = wire::cpr_encode(rx.0 + dlat, rx.1 + dlon, odd);
-                        wire::me_airborne_position(11, 0, 0, wire::ac12_q(5_000 + 2_000 * slot as i32), false, odd, yz, xz)
+                        wire::me_airborne_position(11, 0, 0, wire::ac12_q(alt_of_slot(slot as i32, high)), false, odd, yz, xz)
                     }
                 };
                 lines.push((t, wire::hex(&wire::df17(5, addr, me))));
@@ -1099,6 +1111,12 @@ fn check_map(sc: &K18, s: &Screen, rect: (usize, usize, usize, usize), r: &RefSn
             }
         }
         out.probe("aircraft_label_found");
+        // drawn, but in a colour nobody can read on a dark terminal?
+        let fg = s.rows.get(found[0].1).and_then(|r| r.get(found[0].0)).map(|c| c.fg).unwrap_or(0);
+        if matches!(fg, 30 | 1000 | 1016 | 1232 | 0x100_0000) {
+            out.violate("C18:map-aircraft-label-invisible", format!("frame {} (t={}us): the label {label:?} of {k} (altitude-independent data) is written in black (colour code {fg}) and cannot be seen", s.k, s.vt_us));
+            return;
+        }
         pos.insert(format!("ac:{k}"), (found[0].0, found[0].1, lat - r.rx.0, lon - r.rx.1));
     }
     // the receiver is at the centre
